@@ -486,7 +486,7 @@ def eliminate_defined(assumptions, goal, rounds=6):
 PORTFOLIO = [(0, {}), (1, {"arith.solver": 2}), (7, {}), (3, {"arith.solver": 2})]
 
 
-def _solve_once(hyps, goal, timeout_ms, seed=0, cfg=None, want_model=True):
+def _solve_once(hyps, goal, timeout_ms, seed=0, cfg=None, want_model=True, fresh=True):
   """one solver run in a FRESH z3 context (translated copy): term numbering, and with it the nonlinear solver's
   variable order and run time, depend on the query alone and not on what this process built before (measured: the
   same obligation took 0.8 s in a fresh process and timed out twice at 30 s after a long model search had run in
@@ -495,7 +495,7 @@ def _solve_once(hyps, goal, timeout_ms, seed=0, cfg=None, want_model=True):
   for a in hyps:
     s.add(a)
   s.add(z3.Not(goal))
-  sc = s.translate(z3.Context())
+  sc = s.translate(z3.Context()) if fresh else s  # integer index/guard queries are not history-sensitive: no copy
   sc.set("timeout", int(timeout_ms))
   sc.set("random_seed", int(seed) % (2**31))
   for k, v in (cfg or {}).items():
@@ -509,7 +509,7 @@ def _solve_once(hyps, goal, timeout_ms, seed=0, cfg=None, want_model=True):
       m = sc.model()
       res["model"] = _model_to_dict(m)
       try:
-        res["_model_obj"] = m.translate(z3.main_ctx())
+        res["_model_obj"] = m.translate(z3.main_ctx()) if fresh else m
       except Exception:
         res["_model_obj"] = None
     return res
@@ -673,7 +673,11 @@ def check(assumptions, goal, timeout_ms=10000, seed=0, want_model=True, backends
     except z3.Z3Exception:
       A, g = list(assumptions), goal
     variants = [(A, g, "")]
-    if not sat_first:
+    # the variants below only pay off on real (nonlinear) arithmetic; index / guard obligations over the integers are
+    # decided by the plain cone of influence in milliseconds
+    rc = {}
+    real = _mentions_real(g, rc) or any(_mentions_real(a, rc) for a in A)
+    if not sat_first and real:
       try:
         A2, g2 = eliminate_defined(A, g, rounds=40)
         if len(A2) != len(A):
@@ -682,7 +686,7 @@ def check(assumptions, goal, timeout_ms=10000, seed=0, want_model=True, backends
         pass
     for Av, gv, vt in variants:
       full = cone_of_influence(Av, gv)
-      if not sat_first:
+      if not sat_first and real:
         loc = local_cone(full, gv)
         if len(loc) < len(full):
           queries.append((loc, gv, f"{vt}{len(loc)} of {len(full)} hypotheses: those connected to the goal through generated symbols", False))
@@ -692,8 +696,10 @@ def check(assumptions, goal, timeout_ms=10000, seed=0, want_model=True, backends
     queries.append((list(assumptions), goal, "all hypotheses", True))
   reason = None
   api = "z3api" in backends
+  rc = {}
+  real = _mentions_real(goal, rc) or any(_mentions_real(a, rc) for a in assumptions)
   if api and sat_first:
-    r = _solve_once(assumptions, goal, min(timeout_ms, 2000), seed, None, want_model)
+    r = _solve_once(assumptions, goal, min(timeout_ms, 2000), seed, None, want_model, fresh=real)
     if r["status"] in ("sat", "unsat"):
       r.update(backend="z3-5.1(api)", time_s=time.time() - t0)
       return r
@@ -708,7 +714,7 @@ def check(assumptions, goal, timeout_ms=10000, seed=0, want_model=True, backends
   if api:
     # phase 1: short single runs
     for hyps, gq, tag, sat_ok in queries:
-      r = _solve_once(hyps, gq, min(timeout_ms, 3000), seed, None, want_model and sat_ok)
+      r = _solve_once(hyps, gq, min(timeout_ms, 3000), seed, None, want_model and sat_ok, fresh=real)
       if r["status"] == "unsat" or (r["status"] == "sat" and sat_ok):
         r.update(backend=f"z3-5.1(api) [{tag}]", time_s=time.time() - t0)
         return r
